@@ -266,13 +266,21 @@ impl<Endpoint: Ord + Clone> BlockHandler<Endpoint> {
             .chunks(request_block_size)
             .skip(usize::from(request_block2.num));
 
-        let cached_payload_chunk = chunks.next().ok_or_else(|| {
-            HandlingError::bad_request(format!(
-                "num={}, block_size={}",
-                request_block2.num,
-                request_block2.size()
-            ))
-        })?;
+        let cached_payload_chunk = match chunks.next() {
+            Some(chunk) => chunk,
+            // An empty body has no chunks, but its block 0 is the (empty)
+            // final block.
+            None if request_block2.num == 0 && cached_payload.is_empty() => {
+                &[][..]
+            }
+            None => {
+                return Err(HandlingError::bad_request(format!(
+                    "num={}, block_size={}",
+                    request_block2.num,
+                    request_block2.size()
+                )))
+            }
+        };
 
         let response_payload = &mut response.message.payload;
         response_payload.clear();
